@@ -50,3 +50,19 @@ def declare(reg):
     b = reg.properties.setdefault("C09", {}).setdefault("bounded", [])
     b.append({"name": "parser-names-exhaustive", "module": "harness.confine", "func": "ParserNames"})
     b.append({"name": "jail-e2e", "module": "harness.confine", "func": "Jail"})
+    M = "asimap/mbox.py"
+    for fn, names in (("create", ["name"]), ("delete", ["name"]), ("rename", ["old_name", "new_name"])):
+        params = {n: "str" for n in names}
+        params["server"] = "ref:IMAPUserServer"
+        reg.contract(
+            M, "Mailbox." + fn, params=params,
+            requires={f"from-parser-{n}": f"{n} == '' or safe_rel(rel_name({n}))" for n in names},
+            raises={"InvalidMailbox": None, "MailboxExists": None, "NoSuchMailbox": None, "MailboxException": None},
+            ghost={"cut": {"before_assign": "mbox", "asserts": {
+                # every path this classmethod forms afterwards (MH(maildir / name), remove_folder, rmtree, symlink/rename) uses this name
+                f"path-name-confined-{n}": f"{n} == '' or safe_rel({n})" for n in names
+            }}},
+            is_async=True,
+            props=["C09"],
+            note="verified up to the first mailbox lookup (cut point): after stripping the hierarchy prefix the name used for all later path-forming calls is confined; the names are not reassigned afterwards",
+        )
